@@ -316,7 +316,9 @@ def run_kani_jobs(ctx, harnesses):
     # counterexamples: sequential (the in-place playback edits the proof module of the scratch crate)
     for variant, h, spec in jobs:
         r = results[h]
-        if r["status"] == "violation" and not os.environ.get("VERIF_NO_PLAYBACK"):
+        known = json.load(open(os.path.join(HERE, "known_findings.json")))["findings"]
+        fresh = [f for f in r["failures"] if not known_match(ctx.prop, h, f, None, known) and not (re.match(r"C\d\d\.", f["obligation"]) and not f["obligation"].startswith(ctx.prop + "."))]
+        if r["status"] == "violation" and fresh and not os.environ.get("VERIF_NO_PLAYBACK"):
             crate, cfgs = crates[variant]
             td = os.path.join(ctx.work, variant, "td", h)
             try:
@@ -472,6 +474,7 @@ def main():
     known = json.load(open(os.path.join(HERE, "known_findings.json")))["findings"]
     violations, known_hits, undecided = [], [], list(infra)
     n_obl = n_dis = 0
+    kf_obl = []
     obl_list = []
     solver_total = 0.0
     for h, r in sorted(results.items()):
@@ -481,6 +484,9 @@ def main():
             own = not re.match(r"C\d\d\.", oid) or oid.startswith(prop + ".")
             if not own:
                 continue  # obligation of another property hosted by a shared harness
+            if st == "FAILURE" and any(known_match(prop, h, f, None, known) for f in r["failures"] if f["obligation"] == oid):
+                kf_obl.append(h + "/" + oid)
+                continue  # a recorded known finding: reported separately, not counted as an obligation to discharge
             n_obl += 1
             bounded = spec.get("bounded")
             ok = st == "SUCCESS"
@@ -580,6 +586,7 @@ def main():
             syntactic_scans=static_notes,
             solver_time_s=round(solver_total, 2),
             known_findings_hit=[k["what"] for k, _h, _f in known_hits],
+            known_finding_obligations=kf_obl,
             undecided=undecided,
             explanation=pinfo.get("explanation", ""),
         ),
@@ -587,8 +594,9 @@ def main():
         wall_s=round(time.time() - ctx.t0, 1),
         violations=len(seen),
     )
-    os.makedirs(os.path.join(HERE, "evidence"), exist_ok=True)
-    with open(os.path.join(HERE, "evidence", prop + ".json"), "w") as f:
+    evdir = os.environ.get("VERIF_EVIDENCE_DIR", os.path.join(HERE, "evidence"))
+    os.makedirs(evdir, exist_ok=True)
+    with open(os.path.join(evdir, prop + ".json"), "w") as f:
         json.dump(ev, f, indent=1)
     if not ctx.keep:
         shutil.rmtree(ctx.work, ignore_errors=True)
